@@ -559,6 +559,31 @@ def run_spin(pml_text, workdir, name):
     return int(m.group(1)), int(st.group(1)), int(tr.group(1)) if tr else 0, path
 
 
+def check_compiler_barrier(funcs, tag):
+    """cb_<op>_<w>(p=%rdi, ld=%rsi, st=%rdx): a load from (%rsi) and a store to (%rdx) on each side of the atomic instruction"""
+    out, n = [], 0
+    for op in BARRIER_OPS:
+        for w in WIDTHS:
+            name = "cb_%s_%d" % (op, w)
+            insns = [t for _, t in funcs[name]]
+            at = [i for i, t in enumerate(insns) if "(%rdi)" in t and (t.startswith("lock") or t.split()[0].startswith("xchg"))]
+            if not at:
+                raise Internal("no atomic instruction on (%%rdi) found in %s: %s" % (name, "; ".join(insns)))
+            first, last = at[0], at[-1]
+            ld = [i for i, t in enumerate(insns) if re.search(r"\(%rsi\)\s*,", t) and not t.startswith("lea")]
+            st = [i for i, t in enumerate(insns) if re.search(r",\s*\(%rdx\)\s*$", t)]
+            if not ld or not st:
+                raise Internal("cannot locate the plain accesses of %s: %s" % (name, "; ".join(insns)))
+            n += 1
+            if not (any(i < first for i in ld) and any(i > last for i in ld)):
+                out.append("%s (%s, %d bytes) is not a compiler barrier: the plain loads before and after it were merged or moved across it: %s"
+                           % ("uatomic_" + op, tag, w, "; ".join(t for t in insns if not t.startswith(("nop", "data16", "cs ")))))
+            elif not (any(i < first for i in st) and any(i > last for i in st)):
+                out.append("%s (%s, %d bytes) is not a compiler barrier: the plain stores before and after it were merged or moved across it: %s"
+                           % ("uatomic_" + op, tag, w, "; ".join(t for t in insns if not t.startswith(("nop", "data16", "cs ")))))
+    return n, out
+
+
 def build_probes(repo, workdir, builtins):
     os.makedirs(workdir, exist_ok=True)
     tag = "builtins" if builtins else "x86"
@@ -583,6 +608,10 @@ def main():
             tag = "builtins" if builtins else "x86"
             obj, so = build_probes(repo, workdir, builtins)
             funcs = parse_objdump(obj)
+            ncb, cbv = check_compiler_barrier(funcs, tag)
+            res["compiler_barrier_probes"] = res.get("compiler_barrier_probes", 0) + ncb
+            for m in cbv:
+                res["violations"].append(dict(kind="compiler-barrier", impl=tag, message=m, replay=""))
             n, err = validate_binding(funcs, so)
             res["validated"] += n
             if err:
